@@ -541,8 +541,18 @@ func (w *writer) privateText() []byte {
 	}
 	var css []cs
 	for _, g := range f.Glyphs {
+		if g.SameAs != "" {
+			css = append(css, cs{g.Name, nil})
+			continue
+		}
 		toks := w.glyphToks(g)
 		css = append(css, cs{g.Name, EncryptCharstring(EncodeToks(toks), w.lead())})
+	}
+	sameAs := map[string]string{}
+	for _, g := range f.Glyphs {
+		if g.SameAs != "" {
+			sameAs[g.Name] = g.SameAs
+		}
 	}
 	for i := 0; i < f.ExtraSubrs; i++ {
 		w.newSubr([]Tok{N(int32(i))}, 1)
@@ -600,6 +610,10 @@ func (w *writer) privateText() []byte {
 	for i, c := range css {
 		if i < len(f.JunkChars) {
 			fmt.Fprintf(&b, "/%s %s def\n", PSName(f.JunkChars[i]), []string{"17", "/x", "[1 2]", "true", "1.5"}[i%5])
+		}
+		if other, ok := sameAs[c.name]; ok {
+			fmt.Fprintf(&b, "/%s /%s load def\n", PSName(c.name), PSName(other))
+			continue
 		}
 		w.rdEntry(&b, "/"+PSName(c.name), c.data, w.nd())
 	}
